@@ -824,6 +824,56 @@ class CrossRPFamily(Family):
         self._again(o, m)
 
 
+class InterSystemFamily(Family):
+    """InterSystemRecurrenceNetwork: the two public setters (three
+    thresholds / three rates) against the matrix, the rates and the
+    network measures of a newly built object."""
+    name = "InterSystemRecurrenceNetwork"
+
+    def __init__(self):
+        names = ["inter_system_recurrence_matrix",
+                 "internal_recurrence_rates", "cross_recurrence_rate",
+                 "cross_global_clustering_xy", "cross_global_clustering_yx",
+                 "cross_transitivity_xy", "cross_transitivity_yx", "degree",
+                 "local_clustering", "path_lengths"]
+        self.queries = {n: call(n) for n in names}
+        for a in ("N", "n_links", "link_density", "adjacency", "threshold"):
+            self.queries["." + a] = attr(a)
+        self.tol = {}
+        self.mutators = {"set_threshold": self.m_thr,
+                         "set_recurrence_rate": self.m_rate}
+
+    def init_model(self, case):
+        return {"x": np.array(case["x"], dtype=float),
+                "y": np.array(case["y"], dtype=float),
+                "metric": case["metric"], "mode": "threshold",
+                "val": self._thr(case["val"])}
+
+    @staticmethod
+    def _thr(a):
+        v = 0.25 + 2.0 * a
+        return (v, 1.25 * v, 0.75 * v)
+
+    @staticmethod
+    def _rate(a):
+        r = min(0.9, max(0.05, a))
+        return (r, min(0.95, 1.1 * r), 0.9 * r)
+
+    def build(self, m):
+        from pyunicorn.timeseries import InterSystemRecurrenceNetwork
+        return InterSystemRecurrenceNetwork(
+            m["x"].copy(), m["y"].copy(), metric=m["metric"],
+            normalize=False, silence_level=3, **{m["mode"]: m["val"]})
+
+    def m_thr(self, o, m, a):
+        m["mode"], m["val"] = "threshold", self._thr(a)
+        o.set_fixed_threshold(m["val"])
+
+    def m_rate(self, o, m, a):
+        m["mode"], m["val"] = "recurrence_rate", self._rate(a)
+        o.set_fixed_recurrence_rate(m["val"])
+
+
 class JointFamily(RPFamily):
     def __init__(self):
         RPFamily.__init__(self, "RecurrenceNetwork")
@@ -1058,6 +1108,7 @@ def fam(name):
             "JointRecurrenceNetwork": JointFamily,
             "SequentialRecurrencePlot": SeqRPFamily,
             "CrossRecurrencePlot": CrossRPFamily,
+            "InterSystemRecurrenceNetwork": InterSystemFamily,
             "ResNetwork": ResFamily,
             "Surrogates": SurFamily,
             "ClimateData": DataFamily,
@@ -1255,6 +1306,22 @@ def cross_rp_cases(draw):
 
 
 @st.composite
+def inter_system_cases(draw):
+    n = draw(st.integers(5, 12))
+    k = draw(st.integers(4, 10))
+    vals = st.integers(-12, 12).map(lambda v: v / 4.0)
+    a = st.integers(0, 19).map(lambda v: v / 20.0 + 0.02)
+    margs = {"set_threshold": a, "set_recurrence_rate": a}
+    return {"family": "InterSystemRecurrenceNetwork",
+            "x": draw(st.lists(vals, min_size=n, max_size=n)),
+            "y": draw(st.lists(vals, min_size=k, max_size=k)),
+            "metric": draw(st.sampled_from(["supremum", "euclidean",
+                                            "manhattan"])),
+            "val": draw(a),
+            "ops": draw(ops_strategy("InterSystemRecurrenceNetwork", margs))}
+
+
+@st.composite
 def seq_rp_cases(draw):
     n = draw(st.integers(7, 18))
     x = draw(st.lists(st.integers(-12, 12).map(lambda k: k / 4.0),
@@ -1367,6 +1434,8 @@ SUBCHECKS = [
          lambda: rp_cases("JointRecurrenceNetwork"), (3, 80), (8, 800)),
     _sub("sequential_recurrence_plot", seq_rp_cases, (2, 80), (4, 800)),
     _sub("cross_recurrence_plot", cross_rp_cases, (2, 80), (4, 800)),
+    _sub("inter_system_recurrence_network", inter_system_cases, (2, 80),
+         (4, 800)),
     _sub("resistive", res_cases, (2, 80), (8, 800)),
     _sub("surrogates", sur_cases, (4, 150), (8, 2000)),
     _sub("climate_data", data_cases, (2, 100), (4, 1500)),
